@@ -326,8 +326,12 @@ type syncEnv struct {
 
 // newSyncChain builds a chain of n headers whose header tip0 is stamped "now" (bubble start) and
 // which advances by delta per height.
-func newSyncChain(id string, n int, tip0 uint64, delta time.Duration, spans []uint64) *vh.Chain {
-	return vh.ChainSpec{ChainID: id, N: n, StartMs: -int64(tip0-1) * delta.Milliseconds(), DeltaMs: []int64{delta.Milliseconds()}, Spans: spans}.Build()
+func newSyncChain(id string, n int, tip0 uint64, delta time.Duration, spans []uint64, flags ...uint8) *vh.Chain {
+	spec := vh.ChainSpec{ChainID: id, N: n, StartMs: -int64(tip0-1) * delta.Milliseconds(), DeltaMs: []int64{delta.Milliseconds()}, Spans: spans}
+	for _, f := range flags {
+		spec.Flags |= f
+	}
+	return spec.Build()
 }
 
 func newSyncEnv(chain *vh.Chain, tip0 uint64, delta time.Duration, storeOpts []store.Option, opts ...hsync.Option) (*syncEnv, error) {
